@@ -166,7 +166,9 @@ CLAIMS["C04"] = dict(
     design="§3 E10, §4 C04", engine="E10")
 CLAIMS["C10"] = dict(
     category="other",
-    text="Static decision of necessary clauses for all inputs: non-emptiness guards on every first/last-element access to input containers, "
+    text="Static decision of necessary clauses for all inputs: no self-recursive function copies a container per level or recurses before its own "
+         "visited mark (this rule found, and since their repair proves the absence of, the quadratic-memory recursion of RDP and the unbounded "
+         "recursion of CheckSplitOwner); non-emptiness guards on every first/last-element access to input containers, "
          "interprocedurally from the public entries (found and, since the repair, proves the absence of the empty-path crash in ClipperOffset); "
          "operator new unreachable from every destructor / noexcept function, no catch handler, no nothrow-new (so bad_alloc reaches the caller); no "
          "product in signed 64-bit arithmetic; sort comparators are strict weak orders; edges handed to AddOutPt & co. carry output (HOT.guard); no "
